@@ -38,6 +38,7 @@ var (
 	c09big95       = core.RegCounter("c09.batches_with_95_or_more_entries")
 	c09big190      = core.RegCounter("c09.batches_with_190_or_more_entries")
 	c09empty       = core.RegCounter("c09.empty_batches_verified")
+	c09again = core.RegCounter("c09.batches_finished_again_without_reset")
 	c09reset       = core.RegCounter("c09.verifier_reused_after_reset")
 	c09force       = core.RegCounter("c09.force_no_expansion")
 	c09batchOnly   = core.RegCounter("c09.verify_batch_only_calls")
@@ -629,6 +630,16 @@ func c09Batch(r *core.Run, e *Env, nd *c09Node, txs []c09Tx, chunk []int, decide
 		doBO()
 		if len(r.Main.Fails()) == 0 {
 			doV()
+		}
+	}
+	// a batch is a value: finishing it again (a retry after a timeout upstream, a second consumer of the
+	// same verifier) must give the same answers as the first time
+	for again := t.W(3); again > 0 && len(r.Main.Fails()) == 0; again-- {
+		r.Count(c09again)
+		if t.W(2) == 0 {
+			doV()
+		} else {
+			doBO()
 		}
 	}
 }
